@@ -889,7 +889,7 @@ func (vc *VC) storeLoc(h *Heap, loc *Loc, val Val) *Heap {
 // isGhostFam: ghost families change only through explicit ghost updates /
 // explicit modifies entries, never through wildcard havocs.
 func (vc *VC) isGhostFam(fam string) bool {
-	if strings.HasPrefix(fam, "GV_") {
+	if strings.HasPrefix(fam, "GV_") || strings.HasPrefix(fam, "RV_") {
 		return true
 	}
 	if !strings.HasPrefix(fam, "H_") {
